@@ -313,6 +313,17 @@ func (store *HStore) GC(bucketID, beginChunkID, endChunkID, noGCDays int, merge,
 	}
 	verifPoint("gc.request.checked")
 
+	// check again and reserve the bucket in one critical section: the pass registers itself
+	// only later, inside its goroutine
+	store.gcMgr.mu.Lock()
+	if _, exists := store.gcMgr.stat[bkt]; exists {
+		store.gcMgr.mu.Unlock()
+		err = fmt.Errorf("gc on bkt: %d already running", bucketID)
+		return
+	}
+	store.gcMgr.stat[bkt] = &GCState{Running: true, Begin: begin, End: end, Src: begin, Dst: begin}
+	store.gcMgr.mu.Unlock()
+
 	go store.gcMgr.gc(bkt, begin, end, merge)
 	return
 }
